@@ -62,6 +62,21 @@ def run(tier="quick", seed=0, contracts=None):
                 bad("value/unreduced-exponent", "differs from x*f(u)/f(v)", case=label, got=repr(got), want=repr(want))
         except Exception as e:
             bad("value/unreduced-exponent", f"same-dimension conversion refused: {type(e).__name__}: {e}", case=label)
+    # magnitudes handed in as narrow floating-point arrays: the conversion is carried out in double precision (no overflow of
+    # finite values, the factor ratio accurate to double rounding)
+    for label, arr, ua, ub, want in [("float32 Pm->m", np.array([1e30, -1e30, 0.0], dtype=np.float32), "Pm", "m", [1e45, -1e45, 0.0]),
+                                     ("float16 km->m", np.array([100.0, 2.5], dtype=np.float16), "km", "m", [1e5, 2500.0]),
+                                     ("float32 m->ym->mm", np.array([1e20], dtype=np.float32), "m", "mm", [1e23]),
+                                     ("float32 km->mm", np.array([1.5, 1024.0], dtype=np.float32), "km", "mm", [1.5e6, 1.024e9])]:
+        evals += 1
+        distinct.add(label)
+        try:
+            q = Quantity(arr, ua)
+            got = (q.to("ym").to(ub).value() if "ym" in label else q.value(ub))
+            if not np.all(np.isfinite(got)) or not np.allclose(np.asarray(got, dtype=float), want, rtol=1e-6):
+                bad("value/narrow-float-array", "conversion of a float32/float16 array overflows or differs from x*f(u)/f(v)", case=label, got=repr(got), want=repr(want))
+        except Exception as e:
+            bad("value/narrow-float-array", f"{type(e).__name__}: {e}", case=label)
     # refused conversions leave the quantity as it was
     for a, b in [("m", "s"), ("J", "W"), ("kg", "m2"), ("N", "Pa"), ("mol", "rad"), ("m", "rad")]:
         for kind in ("scalar", "array"):
